@@ -380,6 +380,21 @@ def main():
             rp = json.load(fh)
         log("replaying %s: property=%s tier=%s seed=%s signature=%s" % (a[1], rp["property"], rp["tier"], rp["seed"], rp["sig"]))
         log("recorded witness: %s" % json.dumps(rp["witness"])[:2000])
+        # 1. re-execute the real code on the recorded artefacts, where the witness carries them
+        binary, _, note = build("release")
+        if binary:
+            r = subprocess.run([binary, "replay", "--set", "file=%s" % os.path.abspath(a[1])], capture_output=True, text=True, env=ENV)
+            out = r.stdout
+            for l in out.splitlines():
+                if l.startswith("REPLAY"):
+                    log(l)
+            if "REPLAY reproduced=true" in out:
+                log("VIOLATION property=%s replay=%s" % (rp["property"], a[1]))
+                return 1
+            if "REPLAY reproduced=false" in out:
+                log("the recorded artefacts no longer violate the property on the current tree")
+                return 0
+        # 2. otherwise regenerate the case: same seed and tier
         rc = check(rp["property"], rp["tier"], rp["seed"])
         return rc
     if a[0] == "--all":
